@@ -18,7 +18,9 @@ Has(e, k) == k \in DOMAIN e
 \* tags are strings "Cxx.name": test the property prefix (TLC has no substring operator; compare against the tag registry)
 FatalTags == {"C00.panic", "C00.hang", "C00.mount", "C01.result", "C01.tree_after", "C01.atomic_on_error", "C01.list", "C01.list_dots",
               "C02.read_len", "C02.read_bytes", "C02.write_len", "C02.seek", "C02.truncate", "C02.flush",
-              "C04.decode", "C04.remount", "C04.extents", "C15.accept", "C15.lookup_hit", "C15.lookup_miss", "C15.lossless", "C15.no_side_effect"}
+              "C15.accept", "C15.lookup_hit", "C15.lookup_miss", "C15.no_side_effect"}
+\* (not fatal: C04.decode / C04.remount / C04.extents / C15.lossless compare the medium with the model and leave the model as certain as it
+\*  was; the program goes on, so that what the damaged medium does to later calls is still judged)
 SubSeqStr(t, pfx) == t \in FatalTags
 Get(e, k, dflt) == IF k \in DOMAIN e THEN e[k] ELSE dflt
 Tag(t, ok) == IF ok THEN {} ELSE {t}
@@ -382,8 +384,9 @@ Step(s, e) ==
            \/ (Has(e.a, "to") /\ e.a.to # "" /\ e.a.to \notin DOMAIN s.m.dh)
         THEN [s |-> s, v |-> {}, dev |-> {}, note |-> {}]
         ELSE [s |-> [s EXCEPT !.dead = TRUE], v |-> {}, dev |-> {}, note |-> {"SKIP"}]
-   ELSE IF Has(e, "flt") /\ e.flt.drop = FALSE /\ ~(e.op = "flush" /\ e.r.k = "err" /\ e.r.e = "Io") THEN
-        \* an injected storage fault (C09 judges those traces): only a failed explicit flush has a defined continuation here
+   ELSE IF Has(e, "flt") /\ e.flt.drop = FALSE /\ ~(e.op = "flush" /\ (e.r.k = "ok" \/ (e.r.k = "err" /\ e.r.e = "Io"))) THEN
+        \* an injected storage fault (C09 judges those traces): only an explicit flush has a defined continuation here: if it fails
+        \* nothing is promised, and if the library reports success in spite of the fault its promise (C14) stands
         [s |-> [s EXCEPT !.dead = TRUE], v |-> {}, dev |-> {}, note |-> {"FAULT"}]
    ELSE IF e.r.k \in {"panic", "hang"} THEN
         [s |-> [s EXCEPT !.dead = TRUE], v |-> {IF e.r.k = "panic" THEN "C00.panic" ELSE "C00.hang"}, dev |-> {}, note |-> {}]
